@@ -39,8 +39,8 @@ def get_functions_contract(eng):
         return S.i(S.var("nLs"))
 
     def hook_data_start(S, st):
-        variant = taint.variant_names(fnode, seeds=("rank",))
-        ok = not ("nLs" in variant or "fcn_list" in variant)
+        variant = taint.variant_before(fnode, lambda n: isinstance(n, ast.Assign) and isinstance(n.targets[0], ast.Name) and n.targets[0].id == "data_start")
+        ok = variant is not None and not ("nLs" in variant or "fcn_list" in variant)
         S.eng.oblige(st, "lines-per-rank and the function list are computed from rank-invariant values only",
                      z3.BoolVal(ok), "spmd", None, "rank-invariance (taint analysis)")
         N, P = S.len(S.var("fcn_list")), S.var("size").t
